@@ -1,5 +1,6 @@
 import CasbinVerif.Spec.Persist
 import CasbinVerif.Properties.C04
+import CasbinVerif.Proofs.C15Notify
 /-
   C15 — Every effective change is persisted, then announced exactly once.
 
@@ -14,29 +15,72 @@ namespace Casbin.C15
 theorem notify_exactly_once (e : Enf) (op : MOp) (w : WatcherKind) (hw : e.watcher = some w) (hn : e.autoNotify = true)
     (e' : Enf) (res : Enf.MRes) (h : e.applyM op = some (e', res)) (n : String) (hexp : expectedNotif w op = some n) :
     (res = .ok true → e'.notif = e.notif ++ [n]) ∧ (res ≠ .ok true → e'.notif = e.notif) := by
-  sorry
+  rw [applyM_eq] at h
+  simp only [Option.map_eq_some_iff] at h
+  obtain ⟨r, hr, hwrap⟩ := h
+  have ha := sameAux_applyWN hr
+  obtain ⟨x, y, hent, rfl⟩ := expectedNotif_entries hexp
+  have hres : res = r.2 := by rw [← wrap_snd op r, hwrap]
+  have he' : e' = (Enf.withNotify r x y).1 := by
+    have : op.wrap r = Enf.withNotify r x y := by simp only [MOp.wrap, hent]
+    rw [← this, hwrap]
+  subst hres he'
+  constructor
+  · intro hok
+    rw [withNotify_on (ha.watcher.trans hw) (ha.autoNotify.trans hn) hok, ha.notif]
+  · intro hno
+    rw [withNotify_noop hno, ha.notif]
 
 /-- without a watcher, or with notification disabled, nothing is announced -/
 theorem no_notify_when_off (e : Enf) (op : MOp) (hoff : e.watcher = none ∨ e.autoNotify = false)
     (e' : Enf) (res : Enf.MRes) (h : e.applyM op = some (e', res)) : e'.notif = e.notif := by
-  sorry
+  rw [applyM_eq] at h
+  simp only [Option.map_eq_some_iff] at h
+  obtain ⟨r, hr, hwrap⟩ := h
+  have ha := sameAux_applyWN hr
+  have hoff' : r.1.watcher = none ∨ r.1.autoNotify = false := by
+    rcases hoff with h | h
+    · exact .inl (ha.watcher.trans h)
+    · exact .inr (ha.autoNotify.trans h)
+  rw [wrap_off op hoff'] at hwrap
+  subst hwrap
+  exact ha.notif
 
 /-- ClearPolicy and BuildRoleLinks are memory-only: never announced -/
 theorem memory_only_silent (e : Enf) (op : MOp) (hop : op = .clear ∨ op = .buildLinks)
     (e' : Enf) (res : Enf.MRes) (h : e.applyM op = some (e', res)) : e'.notif = e.notif := by
-  sorry
+  rcases hop with rfl | rfl
+  · cases h; rfl
+  · cases h; rfl
 
 /-- the notification is issued after the change is in memory and in the adapter: the management
     call's state without the notification is the state of the un-notified call -/
 theorem notify_is_last (e : Enf) (op : MOp) (e' : Enf) (res : Enf.MRes) (h : e.applyM op = some (e', res)) :
     ∃ e₀ res₀, ({ e with watcher := none } : Enf).applyM op = some (e₀, res₀) ∧ res₀ = res ∧
       e'.memory = e₀.memory ∧ e'.adapter = e₀.adapter := by
-  sorry
+  rw [applyM_eq] at h
+  simp only [Option.map_eq_some_iff] at h
+  obtain ⟨r, hr, hwrap⟩ := h
+  refine ⟨r.1.setW none, r.2, ?_, ?_, ?_, ?_⟩
+  · show (e.setW none).applyM op = _
+    rw [applyM_eq, setW_applyWN, hr]
+    simp only [Option.map_some, Option.some.injEq]
+    exact wrap_off op (.inl rfl)
+  · rw [← wrap_snd op r, hwrap]
+  · have := wrap_memory op r
+    rw [hwrap] at this
+    exact this
+  · have := wrap_adapter op r
+    rw [hwrap] at this
+    exact this
 
 /-- SavePolicy announces itself once when it succeeds and never when it fails -/
 theorem save_notifies (e : Enf) (w : WatcherKind) (hw : e.watcher = some w) :
     (e.savePolicy.2 = true → e.savePolicy.1.notif = e.notif ++ [if w.isEx then "SavePolicy" else "Update"]) ∧
     (e.savePolicy.2 = false → e.savePolicy.1.notif = e.notif) := by
-  sorry
+  rcases ha : e.adapter with _ | a
+  · simp [Enf.savePolicy, ha]
+  · rcases hc : a.call "SavePolicy" with ⟨a1, ok⟩
+    cases ok <;> simp [Enf.savePolicy, ha, hc, hw]
 
 end Casbin.C15
